@@ -232,6 +232,41 @@ func TestVerifC18(t *testing.T) {
 		rep.Distinct++
 	}
 
+	// ---- D. a connection dialled under a context with a deadline (the client dials under its lookup timeout) and then left
+	// idle: the deadline belongs to the dial, not to the connection - whether or not a request completed before it passed
+	for _, warm := range []bool{false, true} {
+		for _, rt := range []time.Duration{time.Second, 30 * time.Second} {
+			name := fmt.Sprintf("D/dialled-under-a-deadline-then-idle/rt=%v/request-before-the-deadline=%v", rt, warm)
+			verifsim.Bubble(t, func(t *testing.T) {
+				dctx, dcancel := context.WithTimeout(context.Background(), 3*time.Second)
+				defer dcancel()
+				env := newRCEnv(rcOpts{queueSize: 1, readTimeout: rt, dialCtx: dctx})
+				defer env.finish()
+				if env.dialErr != nil {
+					rep.bad("harness:c18-dial", "%s: dial failed: %v", name, env.dialErr)
+					return
+				}
+				if warm {
+					c1 := env.newCall("d1", "get", false)
+					env.goQueue(c1)
+					synctest.Wait()
+					env.respondOK(<-env.reqs, 1, false)
+					synctest.Wait()
+				}
+				time.Sleep(5 * time.Second) // the dial's deadline passes
+				synctest.Wait()
+				env.quiesce()
+				if env.isDone() {
+					rep.bad("idle-conn-torn-down", "%s: the idle connection was torn down when the deadline of the context it was dialled under passed", name)
+					return
+				}
+				c18idleThenUse(env, rep, name, rt, synctest.Wait)
+				o.flush(name, env)
+			})
+			rep.Distinct++
+		}
+	}
+
 	// ---- B. silent server
 	for _, rt := range []time.Duration{time.Millisecond, time.Second, 30 * time.Second} {
 		name := fmt.Sprintf("B/rt=%v", rt)
